@@ -83,20 +83,20 @@ PLAN = {
         "exhaustive_note": "every single fault (quick) / every ordered pair of faults (thorough) of two base instances: duplicate ids (vars; constraints within and across lists), undefined ids at each position and in each function shape, each required field unset, each bound shape, repeated ids in hints",
     },
     "C09": {
-        "mc": [MC_INST], "gen": [GI("penalty", "Penalty")], "drive": [D("penalty", 1000, 50000), D("mixed", 300, 15000)],
+        "mc": [MC_INST], "gen": [GI("penalty", "Penalty")], "drive": [D("penalty", 1000, 50000), D("mixed", 300, 15000), D("pipeline", 150, 8000)],
         "exhaustive_note": "2 senses x 3 constraint lists (empty / one / three in non-ascending id order, one without function) x {no, one} previously removed constraint, an unused variable, both methods",
     },
-    "C10": {"mc": [MC_INST], "gen": [GI("penalty", "Penalty")], "drive": [D("with_parameters", 1500, 60000)]},
+    "C10": {"mc": [MC_INST], "gen": [GI("penalty", "Penalty")], "drive": [D("with_parameters", 1500, 60000), D("pipeline", 150, 8000)]},
     "C11": {
-        "mc": [MC_POLY], "gen": [GI("qubo", "Qubo")], "drive": [D("pubo", 1000, 40000), D("mixed", 300, 15000)],
+        "mc": [MC_POLY], "gen": [GI("qubo", "Qubo")], "drive": [D("pubo", 1000, 40000), D("mixed", 300, 15000), D("pipeline", 150, 8000)],
         "exhaustive_note": "all small binary objectives of the family BinObjs (every representation, powers, three distinct variables) x {pubo, qubo} x {ok, maximise, constrained, non-binary}",
     },
     "C12": {
-        "mc": [M("logencode", "MC_LogEncode.tla", "MC_LogEncode.cfg"), MC_INST_NEW], "proofs": ["CompleteSequence.tla"], "gen": [GI("logencode", "LogEncode"), GSM_S], "drive": [D("log_encode", 1000, 50000), D("mixed", 300, 15000)],
+        "mc": [M("logencode", "MC_LogEncode.tla", "MC_LogEncode.cfg"), MC_INST_NEW], "proofs": ["CompleteSequence.tla"], "gen": [GI("logencode", "LogEncode"), GSM_S], "drive": [D("log_encode", 1000, 50000), D("mixed", 300, 15000), D("pipeline", 150, 8000)],
         "exhaustive_note": "every (l,u) in halves in [-8,8]; quarters and tenths with independent fractional parts; every width 1..600 (quick) / 4096 (thorough) at 3 offsets up to 2^20; every error condition",
     },
     "C13": {
-        "mc": [M("slack", "MC_Slack.tla", "MC_Slack.cfg", workers=12), MC_INST_NEW], "gen": [GI("slack", "Slack"), GSM_S], "drive": [D("slack", 1000, 40000), D("mixed", 300, 15000)],
+        "mc": [M("slack", "MC_Slack.tla", "MC_Slack.cfg", workers=12), MC_INST_NEW], "gen": [GI("slack", "Slack"), GSM_S], "drive": [D("slack", 1000, 40000), D("mixed", 300, 15000), D("pipeline", 150, 8000)],
         "exhaustive_note": "every f of the family SlackF (linear and bilinear, coefficients {-2,-1,1,1/2,-1/3}) x 3x3 boxes x both conversions x 2 limits, every lattice point and slack value; each rejection condition",
     },
     "C14": {
